@@ -404,6 +404,10 @@ func stimReplay(prop string) func(c *harness.Ctx, raw json.RawMessage) {
 }
 
 func evalStim(c *harness.Ctx, prop string, cs stimCase, trace bool) {
+	if stimCollector != nil {
+		stimCollector(prop, cs)
+		return
+	}
 	o, e := runStim(cs, trace)
 	rule, msg := judgeStim(prop, cs, o, e)
 	if rule != "" {
